@@ -702,6 +702,44 @@ fn fixed_module_faults(ctx: &Ctx, rng: &mut Rng, s: &SizeInfo, faults: &mut Vec<
     }
 }
 
+/// Structured damage to a whole track of the fixed pattern (or a segment of it): inverted (= phase
+/// shifted clock track), stuck dark, stuck light, every other module inverted, two neighbours inverted.
+fn fixed_track_faults(rng: &mut Rng, s: &SizeInfo, faults: &mut Vec<Fault>) {
+    let tracks = crate::catalogue::fixed_tracks(s);
+    let n_tracks = if rng.chance(3, 4) { 1 } else { 2 };
+    for _ in 0..n_tracks {
+        let t = rng.pick(&tracks).clone();
+        let (a, b) = match rng.below(4) {
+            0 | 1 => (0, t.len()),
+            2 => {
+                let l = rng.range(2, t.len());
+                let a = rng.range(0, t.len() - l);
+                (a, a + l)
+            }
+            _ => {
+                let a = rng.range(0, t.len() - 2);
+                (a, a + 2)
+            }
+        };
+        let mode = rng.below(5);
+        for (j, px) in t[a..b].iter().enumerate() {
+            let op = match mode {
+                0 | 1 => Op::PxFlip { idx: *px },
+                2 => Op::PxSet { idx: *px, val: true },
+                3 => Op::PxSet { idx: *px, val: false },
+                _ => {
+                    if j % 2 == 0 {
+                        Op::PxFlip { idx: *px }
+                    } else {
+                        continue;
+                    }
+                }
+            };
+            faults.push(Fault::new("fix_track", op));
+        }
+    }
+}
+
 fn geometry_fault(rng: &mut Rng, s: &SizeInfo, faults: &mut Vec<Fault>) {
     let (h, w) = (s.rows, s.cols);
     let n = h * w;
@@ -901,6 +939,13 @@ pub fn fabricate_stream(rng: &mut Rng) -> Vec<u8> {
         }
         _ => {}
     }
+    if rng.chance(1, 10) {
+        // a long run first, so that later constructs sit at large stream positions
+        let n = if rng.chance(1, 2) { rng.range(100, 400) } else { rng.range(400, 1600) };
+        for _ in 0..n {
+            out.push(rng.range(1, 128) as u8);
+        }
+    }
     let eci_bytes = |rng: &mut Rng, out: &mut Vec<u8>| {
         out.push(241);
         match rng.below(8) {
@@ -995,8 +1040,9 @@ pub fn fabricate_stream(rng: &mut Rng) -> Vec<u8> {
             9 | 10 => {
                 // Base256 with a crafted length field
                 out.push(231);
-                let payload = rng.range(0, 6);
-                let l: usize = match rng.below(8) {
+                let payload = if rng.chance(1, 6) { rng.range(245, 520) } else { rng.range(0, 6) };
+                let l: usize = match rng.below(9) {
+                    8 => payload.saturating_sub(1),
                     0 => 0,
                     1 => payload,
                     2 => payload + 1,
@@ -1182,9 +1228,10 @@ fn gen_c05(ctx: &Ctx, rng: &mut Rng, i: u64) -> Trace {
             let producer = producer_for_size(rng, s, 10);
             let n = rng.range(1, 3);
             for _ in 0..n {
-                match rng.below(4) {
+                match rng.below(5) {
                     0 => data_module_faults(ctx, rng, s, None, &mut faults),
                     1 => fixed_module_faults(ctx, rng, s, &mut faults),
+                    2 => fixed_track_faults(rng, s, &mut faults),
                     _ => geometry_fault(rng, s, &mut faults),
                 }
             }
@@ -1232,14 +1279,16 @@ fn gen_c08(ctx: &Ctx, rng: &mut Rng, i: u64) -> Trace {
     match scenario {
         0..=9 => {} // forward direction only
         10..=34 => data_module_faults(ctx, rng, s, None, &mut faults),
-        35..=59 => fixed_module_faults(ctx, rng, s, &mut faults),
+        35..=49 => fixed_module_faults(ctx, rng, s, &mut faults),
+        50..=59 => fixed_track_faults(rng, s, &mut faults),
         60..=74 => geometry_fault(rng, s, &mut faults),
         _ => {
             let n = rng.range(2, 3);
             for _ in 0..n {
-                match rng.below(3) {
+                match rng.below(4) {
                     0 => data_module_faults(ctx, rng, s, None, &mut faults),
                     1 => fixed_module_faults(ctx, rng, s, &mut faults),
+                    2 => fixed_track_faults(rng, s, &mut faults),
                     _ => geometry_fault(rng, s, &mut faults),
                 }
             }
